@@ -327,7 +327,14 @@ func c04Model(c *lab.Ctx) {
 			continue
 		}
 		c.Case("B case=%d config=%s", caseNo, cfg.JSON())
-		rt, err := router.NewRouters(cfg.toV2())
+		v2cfg := cfg.toV2()
+		if caseNo%2 == 0 {
+			// the same configuration OBJECT was applied before (read back from the manager and re-applied, one route object added
+			// to two virtual hosts, ...): the table built now must still be the one this configuration describes
+			_, _ = router.NewRouters(v2cfg)
+			c.Count("B-built-twice-from-one-object", 1)
+		}
+		rt, err := router.NewRouters(v2cfg)
 		shadow, err2 := router.NewRouters(c04ShadowConfig(cfg).toV2())
 		if err != nil || err2 != nil || rt == nil || shadow == nil {
 			c.Inconclusive("duplicate-free configuration not built")
